@@ -61,11 +61,14 @@ def run(ctx: Ctx) -> None:
 
     def impl(c):
         d, i, eol = c
-        return safe_call(lambda: build(d).get_html_string(i, eol))
+        return safe_call(lambda: build(d, share=True).get_html_string(i, eol))
 
     def oracle(c, out):
         d, i, eol = c
         t = build(d)
+        m = trees.routes_disagree(build(d, share=True))
+        if m:
+            return "with metadata nodes present, the ways of obtaining the markup disagree: " + m
         want = safe_call(lambda: build(strip(d)).get_html_string(i, eol))
         if out != want:
             return "rendering changes when the metadata nodes are removed"
@@ -90,6 +93,7 @@ def run(ctx: Ctx) -> None:
         nontrivial=lambda c: count_meta(c[0]) > 0,
         kind=lambda c: f"{min(count_meta(c[0]), 4)}{'+' if count_meta(c[0]) > 4 else ''} metadata nodes")
     routes(ctx)
+    expansions(ctx)
     batch_inserts(ctx)
 
 
@@ -177,6 +181,51 @@ def routes(ctx: Ctx) -> None:
         n_dep = repr(d).count("'name':")
         if deps[0] == "ok" and n_dep and not deps[1]["dependencies"]:
             ctx.violation("dependencies added after construction are not reported", d, {})
+
+
+def strip_deep(d):
+    """remove metadata nodes everywhere, the expansions of tagifiable objects included"""
+    if d[0] == "G":
+        return ("G", d[1], d[2], d[3], [strip_deep(k) for k in d[4] if k[0] != "M"])
+    if d[0] == "C":
+        exp = [strip_deep(k) for k in d[2] if k[0] != "M"]
+        return ("C", d[1], exp, d[3])
+    return d
+
+
+def expansions(ctx: Ctx) -> None:
+    """trees with tagifiable objects whose expansions are 0..3 nodes, metadata nodes before, inside
+    and after them at the same level: every way of rendering gives what the tree without the
+    metadata nodes gives"""
+    rng = ctx.rng
+    for _ in range(ctx.budget(1500, 20000)):
+        d = trees.rand_tree(rng, rng.choice([1, 2, 2, 3]), leaves="THMMMD", names="bbivsck", custom=True)
+        if "'C'" not in repr(d) or ("'M'" not in repr(d)):
+            continue
+        ds = strip_deep(d)
+        # an expansion that was [meta] alone and is returned as a single node cannot lose it: keep as list
+        if any(k[0] == "C" and not k[3] and len(k[2]) != 1 for k in _walk(ds)):
+            continue        # single-node return form needs exactly one node
+        ctx.count(("expansions", d), True, "tagifiable objects next to metadata")
+        for name in ("str()", "render()['html']", "tagify().get_html_string()", "_repr_html_()"):
+            f1 = dict(trees.render_routes(build(d)))[name]
+            f2 = dict(trees.render_routes(build(ds)))[name]
+            got, want = safe_call(f1), safe_call(f2)
+            if got != want:
+                ctx.violation("rendering of a tree with tagifiable objects changes when metadata nodes are present "
+                              "(next to or inside their expansions)", d,
+                              {"route": name, "impl_output": got, "expected": want})
+                break
+
+
+def _walk(d):
+    yield d
+    if d[0] == "G":
+        for k in d[4]:
+            yield from _walk(k)
+    if d[0] == "C":
+        for k in d[2]:
+            yield from _walk(k)
 
 
 def batch_inserts(ctx: Ctx) -> None:
